@@ -14,10 +14,18 @@ import (
 	"strings"
 	"sync"
 
+	"syscall"
+
 	"free5gclib/UeauCommon"
 	"free5gclib/milenage"
 	"free5gclib/nas/security"
+	"free5gclib/ngap"
+	"stgutg"
 	"tglib"
+
+	"github.com/ishidawataru/sctp"
+
+	peer2 "verifharness/peer"
 )
 
 // Domain aka: 5G-AKA RES* and key hierarchy (C05).
@@ -79,6 +87,68 @@ func akaDeriveTwice(a []string) string {
 	subs := tglib.GetAuthSubscription(aStr(a[4]), aStr(a[5]), aStr(a[6]))
 	subs.AuthenticationManagementField = aStr(a[3])
 	res := ue.DeriveRESstarAndSetKey(subs, a16(a[7]), xb(a[8]), aStr(a[9]), aStr(a[10]), aStr(a[11]))
+	return "ok " + hx(res) + " " + hx(ue.Kamf) + " " + hx(ue.KnasEnc[:]) + " " + hx(ue.KnasInt[:])
+}
+
+// akaRegister: the same twelve arguments (ciphering/integrity algorithm must be NEA0/NIA2, what CreateUE configures), but the
+// derivation is reached the way the emulator reaches it: the real stgutg.RegisterUE over a socketpair against an AMF side
+// that sends the AUTHENTICATION REQUEST carrying <rand>/<autn> and then decodable messages. RegisterUE builds the serving
+// network name itself from mnc/mcc (the <snName> argument is what the model is given). All registrations of a run happen in
+// this one process, on different PLMNs: nothing of an earlier registration may be remembered.
+// RES* is cut out of the AUTHENTICATION RESPONSE on the wire, the keys are read from the UE context.
+func akaRegister(a []string) string {
+	if a8(a[1]) != security.AlgCiphering128NEA0 || a8(a[2]) != security.AlgIntegrity128NIA2 {
+		panic(badArg{})
+	}
+	mnc, mcc := aStr(a[10]), aStr(a[11])
+	rnd, autn := a16(a[8]), a16(a[7])
+	ue := tglib.NewRanUeContext(aStr(a[0]), 7, security.AlgCiphering128NEA0, security.AlgIntegrity128NIA2)
+	ue.AuthenticationSubs = tglib.GetAuthSubscription(aStr(a[4]), aStr(a[5]), aStr(a[6]))
+	ue.AuthenticationSubs.AuthenticationManagementField = aStr(a[3])
+	fds, err := syscall.Socketpair(syscall.AF_UNIX, syscall.SOCK_SEQPACKET, 0)
+	if err != nil {
+		panic(err)
+	}
+	conn := sctp.NewSCTPConn(fds[0], nil)
+	defer conn.Close()
+	resCh := make(chan []byte, 1)
+	go func() {
+		defer syscall.Close(fds[1])
+		var res []byte
+		defer func() { resCh <- res }()
+		buf := make([]byte, 8192)
+		rd := func() []byte {
+			n, err := syscall.Read(fds[1], buf)
+			if err != nil || n <= 0 {
+				return nil
+			}
+			return append([]byte{}, buf[:n]...)
+		}
+		dl := peer2.DownlinkNASTransport(0x1122334455, 7, peer2.NasAuthenticationRequest(1, []byte{0, 0}, rnd, autn))
+		if rd() == nil { // REGISTRATION REQUEST
+			return
+		}
+		syscall.Write(fds[1], dl)
+		m := rd() // AUTHENTICATION RESPONSE
+		if pdu, e := ngap.Decoder(m); e == nil && pdu.InitiatingMessage != nil && pdu.InitiatingMessage.Value.UplinkNASTransport != nil {
+			for _, ie := range pdu.InitiatingMessage.Value.UplinkNASTransport.ProtocolIEs.List {
+				if ie.Value.NASPDU != nil {
+					n := ie.Value.NASPDU.Value
+					if len(n) == 21 && n[0] == 0x7e && n[2] == 0x57 && n[3] == 0x2d && n[4] == 16 {
+						res = append([]byte{}, n[5:]...)
+					}
+				}
+			}
+		}
+		syscall.Write(fds[1], dl) // in place of SECURITY MODE COMMAND: decoded and discarded
+		rd()                      // SECURITY MODE COMPLETE
+		syscall.Write(fds[1], dl) // in place of INITIAL CONTEXT SETUP REQUEST
+		rd()                      // INITIAL CONTEXT SETUP RESPONSE
+		rd()                      // REGISTRATION COMPLETE
+		syscall.Write(fds[1], dl) // in place of CONFIGURATION UPDATE COMMAND
+	}()
+	stgutg.RegisterUE(ue, mnc, mcc, conn)
+	res := <-resCh
 	return "ok " + hx(res) + " " + hx(ue.Kamf) + " " + hx(ue.KnasEnc[:]) + " " + hx(ue.KnasInt[:])
 }
 
@@ -249,6 +319,7 @@ func init() {
 	registerOp("aka_derive", akaDerive)
 	registerOp("aka_derive_after", akaDeriveAfter)
 	registerOp("aka_derive_twice", akaDeriveTwice)
+	registerOp("aka_register", akaRegister)
 	registerOp("aka_derive_x", func(a []string) string {
 		if os.Getenv("VERIF_CORR_CHILD") != "" {
 			return akaDerive(a)
@@ -404,6 +475,13 @@ func akaDomain(e *emitter) {
 			}
 			e.op("aka_derive_twice", append(b1, v...)...)
 			e.op("aka_derive_twice", append(v, b1...)...)
+		}
+		if (c%8 == 3 || c%8 == 4) && len(supiDigits) >= 8 { // RegisterUE also encodes the SUCI: MCC, MNC and an MSIN
+			// through the real RegisterUE (NEA0 / NIA2 as CreateUE configures): a different serving PLMN every time, 2- and
+			// 3-digit MNCs alternating, all in this one process
+			r := base(opcS, "")
+			r[1], r[2] = u(uint64(security.AlgCiphering128NEA0)), u(uint64(security.AlgIntegrity128NIA2))
+			e.op("aka_register", r...)
 		}
 		if c%4 == 1 {
 			// another subscriber (other K / OPc / OP) is created before this one authenticates
